@@ -84,7 +84,9 @@ CONV = {
     3: lambda v: _raise(3) if v in (2, 'x') else ('ok', v),
     5: lambda v: v,
     6: lambda v, row: (v, len(row)),
+    7: lambda v: _CODES[v],          # a lookup-table converter: KeyError on 2 and 'x'
 }
+_CODES = {0: 'zero', 1: 'one', 'b': 'bee', None: 'none'}
 
 
 def _rowmapper0(row):
